@@ -147,6 +147,8 @@ func init() {
 		"internal/bytealg.IndexByteString": indexByte,
 		"bytes.IndexByte":                  indexByte,
 		"strings.IndexByte":                indexByte,
+		"(*strings.Builder).copyCheck":     nop,
+		"strings.Join":                     stringsJoin,
 		"internal/bytealg.MakeNoZero": func(in *Interp, fn *ssa.Function, a []Value) Value {
 			n := a[0].(*Term)
 			return in.makeSlice(types.Typ[types.Uint8], n, n)
@@ -635,4 +637,30 @@ func (in *Interp) nondetS(name string, w int) *Term {
 	full := in.nondetName(name)
 	in.ts.signedVar[full] = true
 	return in.nondetVar(full, w)
+}
+
+// strings.Join: concatenation when the element count is concrete and no
+// element is opaque, otherwise an opaque string (formatting is never the subject)
+func stringsJoin(in *Interp, fn *ssa.Function, a []Value) Value {
+	sl := a[0].(*SliceV)
+	sep, _ := a[1].(*StrV)
+	if sl.obj == nil {
+		return in.mkStr("")
+	}
+	n, ok := constInt(sl.len)
+	if !ok || sep == nil || sep.opaque {
+		return &StrV{opaque: true, tag: "Join"}
+	}
+	var out []*Term
+	for i := 0; i < n; i++ {
+		e, ok := in.sliceElem(sl, in.ts.ConstU(64, uint64(i))).(*StrV)
+		if !ok || e.opaque {
+			return &StrV{opaque: true, tag: "Join"}
+		}
+		if i > 0 {
+			out = append(out, sep.b...)
+		}
+		out = append(out, e.b...)
+	}
+	return &StrV{b: out}
 }
